@@ -114,6 +114,29 @@ fn pcsaft_from(names: &[&str], file: &str, kij: f64) -> PcSaftParameters {
     }
 }
 
+/// the PC-SAFT parameter set of the components `idx` of `names`, read in that order from the file, with the k_ij of
+/// [`pcsaft_from`] evaluated at the ORIGINAL indices — built without `Parameter::subset`
+fn pcsaft_from_idx(names: &[&str], idx: &[usize], file: &str, kij: f64) -> PcSaftParameters {
+    let sel: Vec<&str> = idx.iter().map(|&i| names[i]).collect();
+    let p = configs::pcsaft_params(&sel, file, None);
+    if idx.len() > 1 && kij != 0.0 {
+        let (pure, _) = p.records();
+        let n = idx.len();
+        let mut k = Array2::from_elem((n, n), feos::pcsaft::PcSaftBinaryRecord::new(Some(0.0), None, None));
+        for a in 0..n {
+            for b in 0..n {
+                if a != b {
+                    let (i, j) = (idx[a], idx[b]);
+                    k[[a, b]] = feos::pcsaft::PcSaftBinaryRecord::new(Some(kij * (1 + i.min(j) + 2 * i.max(j)) as f64), None, None);
+                }
+            }
+        }
+        PcSaftParameters::from_records(pure.to_vec(), Some(k)).unwrap()
+    } else {
+        p
+    }
+}
+
 /// permute records and binary matrix of a PC-SAFT parameter set
 fn pcsaft_permuted(p: &PcSaftParameters, perm: &[usize]) -> PcSaftParameters {
     let (pure, bin) = p.records();
@@ -124,7 +147,9 @@ fn pcsaft_permuted(p: &PcSaftParameters, perm: &[usize]) -> PcSaftParameters {
 
 fn cases(full: bool) -> Vec<Case> {
     let mut v = Vec::new();
-    // ---------- subset with non-default options
+    // ---------- subset with non-default options.  The "direct" member is built from the records of the chosen components
+    // WITHOUT `Parameter::subset` / `Parameter::records` (names re-read from the JSON file in the order of `idx`, literal
+    // records and the k_ij formula evaluated at the original indices), so that a defect in those shared routines shows.
     {
         let names = ["propane", "butane", "hexane", "decane"];
         let p = Arc::new(pcsaft_from(&names, "gross2001.json", 0.01));
@@ -132,38 +157,53 @@ fn cases(full: bool) -> Vec<Case> {
         let m = PcSaft::with_options(p.clone(), opts);
         for idx in [vec![2usize, 0], vec![1, 3, 0], vec![3]] {
             let sub = m.subset(&idx);
-            let direct = PcSaft::with_options(Arc::new(p.subset(&idx)), opts);
+            let direct = PcSaft::with_options(Arc::new(pcsaft_from_idx(&names, &idx, "gross2001.json", 0.01)), opts);
             v.push(case(&format!("subset_pcsaft_{}", idx.iter().map(|i| i.to_string()).collect::<Vec<_>>().join("")),
                 "subset", true, idx.len(), 450.0, sub, direct, same_state(), all_dirs(idx.len())));
         }
-        let pw = Arc::new(configs::pcsaft_params(&["water", "methanol", "ethanol"], "gross2002.json", None));
+        let wnames = ["water", "methanol", "ethanol"];
+        let pw = Arc::new(configs::pcsaft_params(&wnames, "gross2002.json", None));
         let mw = PcSaft::with_options(pw.clone(), opts);
         let idx = vec![2usize, 0];
+        let sel: Vec<&str> = idx.iter().map(|&i| wnames[i]).collect();
         v.push(case("subset_pcsaft_assoc_20", "subset", true, 2, 600.0, mw.subset(&idx),
-            PcSaft::with_options(Arc::new(pw.subset(&idx)), opts), same_state(), all_dirs(2)));
+            PcSaft::with_options(Arc::new(configs::pcsaft_params(&sel, "gross2002.json", None)), opts), same_state(), all_dirs(2)));
     }
     {
-        let p = Arc::new(
-            SaftVRMieParameters::from_json(vec!["ethane", "n-butane", "decane"], format!("{}/saftvrmie/lafitte2013.json", params()), None, IdentifierOption::Name).unwrap(),
-        );
+        let names = ["ethane", "n-butane", "decane"];
+        let load = |n: Vec<&str>| SaftVRMieParameters::from_json(n, format!("{}/saftvrmie/lafitte2013.json", params()), None, IdentifierOption::Name).unwrap();
+        let p = Arc::new(load(names.to_vec()));
         let opts = SaftVRMieOptions { max_eta: 0.4, max_iter_cross_assoc: 60, tol_cross_assoc: 1e-11 };
         let m = SaftVRMie::with_options(p.clone(), opts);
         let idx = vec![2usize, 0];
         v.push(case("subset_saftvrmie_20", "subset", true, 2, 400.0, m.subset(&idx),
-            SaftVRMie::with_options(Arc::new(p.subset(&idx)), opts), same_state(), all_dirs(2)));
+            SaftVRMie::with_options(Arc::new(load(idx.iter().map(|&i| names[i]).collect())), opts), same_state(), all_dirs(2)));
     }
     {
         let pr = configs::peng_robinson(3);
         let idx = vec![2usize, 0];
-        let pp: Arc<PengRobinsonParameters> = Arc::new(configs::peng_robinson_params(3));
-        v.push(case("subset_pr_20", "subset", true, 2, 430.0, pr.subset(&idx), PengRobinson::new(Arc::new(pp.subset(&idx))), same_state(), all_dirs(2)));
+        v.push(case("subset_pr_20", "subset", true, 2, 430.0, pr.subset(&idx), PengRobinson::new(Arc::new(configs::peng_robinson_params_idx(&idx))), same_state(), all_dirs(2)));
     }
     {
         let opts = PetsOptions { max_eta: 0.45 };
         let pp: Arc<PetsParameters> = Arc::new(configs::pets_params(3));
         let m = Pets::with_options(pp.clone(), opts);
         let idx = vec![2usize, 1];
-        v.push(case("subset_pets_21", "subset", true, 2, 200.0, m.subset(&idx), Pets::with_options(Arc::new(pp.subset(&idx)), opts), same_state(), all_dirs(2)));
+        v.push(case("subset_pets_21", "subset", true, 2, 200.0, m.subset(&idx), Pets::with_options(Arc::new(configs::pets_params_idx(&idx)), opts), same_state(), all_dirs(2)));
+    }
+    {
+        // uv-theory with a non-default perturbation and packing-fraction limit
+        use feos::uvtheory::Perturbation;
+        for (nm, pert) in [("bh", Perturbation::BarkerHenderson), ("b3", Perturbation::WeeksChandlerAndersenB3)] {
+            let m = configs::uvtheory_idx(&[0, 1], pert.clone(), 0.45);
+            for idx in [vec![1usize, 0], vec![1]] {
+                if nm == "b3" && idx.len() > 1 {
+                    continue; // B3 is a pure-component variant
+                }
+                v.push(case(&format!("subset_uv_{nm}_{}", idx.iter().map(|i| i.to_string()).collect::<Vec<_>>().join("")),
+                    "subset", true, idx.len(), 200.0, m.subset(&idx), configs::uvtheory_idx(&idx, pert.clone(), 0.45), same_state(), all_dirs(idx.len())));
+            }
+        }
     }
     // ---------- permutation
     let perm_case = |name: &str, p: PcSaftParameters, perm: Vec<usize>, t_scale: f64| -> Case {
